@@ -130,7 +130,9 @@ func runWorker(self, tier string, from, to int, stepMode bool) workerResult {
 	if stepMode {
 		args = append(args, "-step")
 	}
-	cmd := exec.Command(self, args...)
+	// address space capped (8 GiB): an input that makes the decoder reserve tens of GiB kills the worker (which
+	// the coordinator turns into a verdict) instead of the machine
+	cmd := exec.Command("sh", append([]string{"-c", `ulimit -v 8388608 || exit 97; exec "$0" "$@"`, self}, args...)...)
 	cmd.Env = append(os.Environ(), "GOMAXPROCS=2", "GOMEMLIMIT=1500MiB")
 	stdout, _ := cmd.StdoutPipe()
 	var stderr strings.Builder
